@@ -70,10 +70,10 @@ def run(ctx):
             c["target"] = "sdk"
             ctx.report(c, {"driver": "h-sdk c15s " + mode, "event": e})
     swp = ctx.path("sdk-wide.ndjson")
-    ctx.run_bin("c15s", ["wide", "--seed", ctx.seed, "--n", 140 if ctx.quick else 500, "--out", swp])
+    ctx.run_bin("c15s", ["wide", "--seed", ctx.seed, "--n", 60 if ctx.quick else 500, "--out", swp])
     swev = vlib.read_ndjson(swp)
     sres = vlib.apalache_events(ctx, "Wide_Pool", ["Pool", "PoolProps"], swev, SCHEMA, "CInit128",
-                                ["bad", "drift"], chunk=140 if ctx.quick else 250)
+                                ["bad", "drift"], chunk=100 if ctx.quick else 250)
     ctx.evaluations += len(swev)
     seen |= {("sdk",) + key(e) for e in swev}
     ctx.cov["samples"].append(swev[0])
